@@ -15,7 +15,7 @@ use crate::util::json::Json;
 use crate::util::rng::Rng;
 use crate::util::run::*;
 
-pub const RULE: &str = "the harness is the network of one Ethernet host running dhcpv4::Socket and applies the reported configuration like examples/dhcp_client.rs; every frame is judged with the independent codec. valid ACK := DHCPACK on UDP 67->68 handed to the client, xid == xid of the client's most recent transmission, chaddr == the client's, server-id (4 octets) present, some contiguous mask, unicast yiaddr. (1) every Configured(c) event follows a poll that was handed a valid ACK granting c.address [separate signature when the most recent client message was not a DHCPREQUEST]; (2) E := max over valid ACKs since the last Deconfigured of (hand-over time + min(lease, max_lease), 120 s if option 51 is absent): after any Interface::poll at now >= E the last event is Deconfigured, no DHCP message uses the address at or after E, and while configured Interface::poll_at <= E; (3) within one lease no unicast renewal follows a broadcast rebind; a lease that runs out with silent servers (ARP answered, polls at poll_at) saw at least one renewing/rebinding REQUEST; (4) unconfigured: consecutive DISCOVER/REQUEST and poll_at stay within max(discover_timeout, initial_request_timeout << ((retries-1)/2)). A class is (lease shape) | (defect kind x client state) | event kind.";
+pub const RULE: &str = "the harness is the network of one Ethernet host running dhcpv4::Socket and applies the reported configuration like examples/dhcp_client.rs; every frame is judged with the independent codec. valid ACK := DHCPACK on UDP 67->68 handed to the client, xid == xid of the client's most recent transmission, chaddr == the client's, server-id (4 octets) present, some contiguous mask, unicast yiaddr. (1) every Configured(c) event follows a poll that was handed a valid ACK granting c.address [separate signature when the most recent client message was not a DHCPREQUEST]; (2) E := max over valid ACKs since the most recent *definite* ACK (inclusive; a definite ACK is one built by the faithful server path with an explicit lease, matching the client's current xid, handed over alone to a bound client - the client is certain to take it, so it replaces every earlier grant) or else since the last Deconfigured, of (hand-over time + min(lease, max_lease), 120 s if option 51 is absent): after any Interface::poll at now >= E the last event is Deconfigured, no DHCP message uses the address at or after E, and while configured Interface::poll_at <= E; (3) within one lease no unicast renewal follows a broadcast rebind; a lease that runs out with silent servers (ARP answered, polls at poll_at) saw at least one renewing/rebinding REQUEST; (4) unconfigured: consecutive DISCOVER/REQUEST and poll_at stay within max(discover_timeout, initial_request_timeout << ((retries-1)/2)). A class is (lease shape) | (defect kind x client state) | event kind.";
 
 const TIMEOUTS: &[Micros] = &[1_000, 10_000, 100_000, 1_000_000, 5_000_000, 10_000_000, 60_000_000, 3_600_000_000];
 
@@ -223,6 +223,7 @@ fn run(idx: u64, rng: &mut Rng, ctx: &Ctx, cfg: DhcpCfg, part: &str) -> CaseOut 
     out.count("client_messages_lost", st.client_msgs_lost);
     out.count("acks_delivered", st.acks_delivered);
     out.count("valid_acks_delivered", st.valid_acks);
+    out.count("definite_acks_replacing_the_lease", st.definite_acks);
     out.count("invalid_acks_delivered", st.invalid_acks);
     out.count("naks_delivered", st.naks_delivered);
     out.count("offers_delivered", st.offers_delivered);
@@ -332,6 +333,7 @@ pub fn monitor() -> super::Monitor {
             ("expiry_polled_exactly_at_E", 30),
             ("invalid_acks_delivered", 300),
             ("valid_acks_delivered", 500),
+            ("definite_acks_replacing_the_lease", 200),
             ("client_unicast_renewals", 100),
             ("client_broadcast_rebinds", 100),
             ("silent_server_leases_judged", 30),
